@@ -202,7 +202,7 @@ func matchesState(w *W2Run, v *CallView, s SetModel) (bool, string) {
 		return true, ""
 	}
 	rs := s.ruleSet()
-	vs := CheckAgainstSpecs(v, SpecsFor(v.C, rs, w.EM), rs)
+	vs := CheckAgainstSpecs(v, SpecsForView(v, rs, w.EM), rs)
 	if len(vs) > 0 {
 		return false, vs[0].Clause + ": " + vs[0].Msg
 	}
